@@ -6,6 +6,14 @@ from .facts import strip, txt, walk, callee, call_args, call_object
 # the returned reference/iterator are seen as assignments whose base variable is the container)
 STD_ACCESSORS = ("::begin", "::end", "::data", "::operator[]", "::at", "::front", "::back", "::rbegin", "::rend", "::get",
                  "::operator*", "::operator->", "::find", "::lower_bound", "::upper_bound")
+# Tasmanian's own containers: non-const overloads that only hand out a pointer/reference into the
+# container (writes through the result are tracked through aliases / lvalue paths)
+REPO_ACCESSORS = ("Data2D<double>::getStrip", "Data2D<int>::getStrip", "Data2D<float>::getStrip", "::getVector", "StorageSet::getValues",
+                  "Wrapper2D<double>::getStrip", "Wrapper2D<int>::getStrip", "Wrapper2D<const double>::getStrip", "Data2D<double>::data", "Data2D<int>::data")
+
+
+def is_accessor(fnname):
+    return (fnname.startswith("std::") and fnname.endswith(STD_ACCESSORS)) or fnname.endswith(REPO_ACCESSORS)
 
 ASSIGN_OPS = ("=", "+=", "-=", "*=", "/=", "%=", "<<=", ">>=", "&=", "|=", "^=")
 
@@ -83,8 +91,7 @@ def element_writes(n):
                     out.append((v, "update", None))
         if k == "CXXMemberCallExpr":
             h = strip(n["c"][0], casts=False)
-            if h is not None and not h.get("cm") and not h.get("static") and not (
-                    h.get("fn", "").startswith("std::") and h.get("fn", "").endswith(STD_ACCESSORS)):
+            if h is not None and not h.get("cm") and not h.get("static") and not is_accessor(h.get("fn", "")):
                 o = call_object(n)
                 v = base_var(o) if o is not None else None
                 if v is not None:
@@ -286,12 +293,28 @@ def cond_edges_dominating(fn, node, skip_bailouts=False):
         if dt and not df:
             if skip_bailouts and _is_bailout(fn, f):
                 continue
-            out.append((cn, True))
+            out.extend(_expand(cn, True))
         elif df and not dt:
             if skip_bailouts and _is_bailout(fn, t):
                 continue
-            out.append((cn, False))
+            out.extend(_expand(cn, False))
     return out
+
+
+def _expand(cn, truth):
+    """(A && B) true implies A true and B true; (A || B) false implies both false; !A flips"""
+    res = [(cn, truth)]
+    n = strip(cn, casts=False)
+    if n is None:
+        return res
+    if n.get("k") == "BinaryOperator" and ((n.get("op") == "&&" and truth) or (n.get("op") == "||" and not truth)):
+        for ch in n["c"]:
+            res.extend(_expand(ch, truth))
+    elif n.get("k") == "UnaryOperator" and n.get("op") == "!":
+        res.extend(_expand(n["c"][0], not truth))
+    elif n is not cn:
+        res.append((n, truth))
+    return res
 
 
 def is_reachable(fn, node):
